@@ -185,7 +185,7 @@ TYPES['union_tag_dict'] = t.Union[TYPES['tag_int'], t.Dict[str, int]]
 # a tagged union as a member of another union keeps its own layout
 # a struct inside a struct (a child error that has only missing / unexpected keys), a container of a three-way union,
 # an internally tagged union with a None-tagged variant
-TYPES['struct_nested'] = {'p': {'a': int, 'b': t.Optional[str]}, 'n': int}
+TYPES['struct_in_struct'] = {'p': {'a': int, 'b': t.Optional[str]}, 'n': int}
 TYPES['list_union3'] = t.List[t.Union[int, str, None]]
 TYPES['dict_union3'] = t.Dict[str, t.Annotated[t.Union[int, str, None], Condition(lambda v: v != 13, 'not 13')]]
 TYPES['tag_int_none'] = t.Annotated[t.Union[VX, VNone], Tagged('t')]
@@ -221,15 +221,15 @@ VOCAB = {
     'pal': ('a_b', 'aB', 'ab'), 'range': ('start', 'end', 'n'), 'pn': ('p', 'q', 'zz'), 'pi': ('x', 'n', 'scale'),
     'tag_int': ('t', 'a', 'zz'), 'tag_ext': ('x', 'y', 'zz'), 'tag_adj': ('t', 'c', 'zz'),
     'dict_si': ('a', 'b', ''), 'counter': ('a', 'b', ''), 'picky': ('a', 'b', ''), 'union_tag_dict': ('t', 'a', 'zz'),
-    'opt_tag_ext': ('x', 'y', 'zz'), 'union_tag_adj': ('t', 'c', 'zz'), 'struct_nested': ('p', 'n', 'zz'), 'tag_int_none': ('t', 'a', 'zz'),
+    'opt_tag_ext': ('x', 'y', 'zz'), 'union_tag_adj': ('t', 'c', 'zz'), 'struct_in_struct': ('p', 'n', 'zz'), 'tag_int_none': ('t', 'a', 'zz'),
 }
 
 # which shape group can reach acceptance (default A) / rejection (default A); None = not in the generic domain
 ACC = {'tuple_fix': 'B', 'tuple_lit': 'B', 'range': None, 'tag_adj': None, 'tag_ext': None, 'struct': 'C', 'pn': None,
-       'pt': 'A', 'cond_set': 'B', 'tuple_struct': None, 'opt_tag_ext': 'A', 'union_tag_adj': 'A', 'struct_nested': None, 'tag_int_none': None}
+       'pt': 'A', 'cond_set': 'B', 'tuple_struct': None, 'opt_tag_ext': 'A', 'union_tag_adj': 'A', 'struct_in_struct': None, 'tag_int_none': None}
 REJ = {'any': None}
 MAPPISH = {'any', 'dict_si', 'dict_if', 'counter', 'ddict', 'struct', 'union', 'p1', 'p2', 'ph', 'pal', 'range', 'dict_p2',
-           'tag_int', 'tag_ext', 'tag_adj', 'vol', 'picky', 'pn', 'pi', 'union_tag_dict', 'opt_vol', 'opt_tag_ext', 'union_tag_adj', 'dict_fskey', 'dict_tupkey', 'struct_nested', 'tag_int_none', 'dict_union3'}
+           'tag_int', 'tag_ext', 'tag_adj', 'vol', 'picky', 'pn', 'pi', 'union_tag_dict', 'opt_vol', 'opt_tag_ext', 'union_tag_adj', 'dict_fskey', 'dict_tupkey', 'struct_in_struct', 'tag_int_none', 'dict_union3'}
 SEQISH = {'any', 'list_int', 'seq_any', 'set_int', 'tuple_var', 'tuple_fix', 'tuple_lit', 'union', 'opt_list', 'vol',
           'cond_len', 'cond_nested', 'nested', 'nested_ragged', 'p2', 'ph', 'range', 'list_p1', 'union_ctor', 'lit', 'str',
           'pt', 'pi', 'cond_set', 'opt_vol', 'tuple_struct', 'list_enum_im', 'list_union3'}
@@ -570,7 +570,7 @@ TD = {
                       "1 <= tk <= 8 and 0 <= bk <= 2 and 0 <= ka <= 5 and 0 <= shape <= 4 and "
                       "((shape == 0 and tk <= 2) or (bk == 0 and not ha and not he))",
                       "b_tag_adj(tk, bk, ha, ka, ia, sa, he, shape)", (0, -1)),
-    'struct_nested': ('struct_nested', "pp: bool, pa: bool, ka: int, ia: int, sa: str, pb: bool, kb: int, ib: int, sb: str, pe: bool, pn: bool",
+    'struct_in_struct': ('struct_in_struct', "pp: bool, pa: bool, ka: int, ia: int, sa: str, pb: bool, kb: int, ib: int, sb: str, pe: bool, pn: bool",
                       "0 <= ka <= 5 and 0 <= kb <= 2", "b_struct_nested(pp, pa, ka, ia, sa, pb, kb, ib, sb, pe, pn)", (0, -1)),
     'tag_int_none': ('tag_int_none', "tk: int, ha: bool, ka: int, ia: int, sa: str, he: bool",
                      "0 <= tk <= 8 and 0 <= ka <= 5", "b_tag_int(tk, ha, ka, ia, sa, he)", (0, -1)),
